@@ -76,6 +76,26 @@ class Owner:
     home: Optional[Folder] = None
 
 
+@dataclass
+class Ev:
+    id: int
+
+
+@dataclass
+class UserEv(Ev):
+    user: str = "u"
+
+
+@dataclass
+class Audited(Ev):
+    """not a case of Union[Ev, UserEv]: dumped by its nearest ancestor that is one (Ev)"""
+
+
+@dataclass
+class AuditedUser(Audited, UserEv):
+    """diamond: MRO Audited, UserEv, Ev - the nearest ancestor among the cases is UserEv, whatever was dumped before"""
+
+
 M_int = make_dataclass("M", [("a", int)])
 M_str = make_dataclass("M", [("a", str)])
 NT_M = NewType("NT_M", M_int)
@@ -110,6 +130,7 @@ POOL = [
     ("G[bool]", G[bool]),
     ("int", int),
     ("bool", bool),
+    ("Union[Ev,UserEv]", Union[Ev, UserEv]),
 ]
 POOL_IDX = {name: i for i, (name, _) in enumerate(POOL)}
 
@@ -119,7 +140,8 @@ LOAD_DATA = [0, False, 1, True, "a", [1], [True], ["a"], {"k": 0}, {"k": False},
              {"owner": {"uid": 1, "home": {"owner": {"uid": 2, "home": {"owner": {"uid": 3, "home": None}}}}}}]
 DUMP_VALUES = [0, False, 1, True, "a", [1], [True], {"k": 0}, {"k": True}, M_int(1), M_str("x"), G(1), G(True),
                Rec(1, [Rec(2, [])]), None, MA(1, MB(2, MA(3, MB(4)))), MB(1, MA(2, MB(3, MA(4)))),
-               Folder(Owner(1, Folder(Owner(2, Folder(Owner(3))))))]
+               Folder(Owner(1, Folder(Owner(2, Folder(Owner(3)))))),
+               Audited(1), AuditedUser(2, "bob"), UserEv(3, "x"), Ev(4)]
 
 EXT_PROVIDERS = {
     "loader(int,+1)": lambda: loader(int, lambda d: d + 1 if type(d) is int else d),
